@@ -37,6 +37,10 @@ def run(chk: Check, proj: Project) -> None:
     s8_reader_not_wider(chk, proj, m)
     s9_optional_index(chk, proj, m)
     s10_scan_input(chk, proj, m)
+    from . import C04
+    from .common import world
+
+    chk.borrow("S11", "marker removal and placeholder substitution dominate every normal return, for both render types (shared with C04-S2)", lambda sub: C04.s2_consumed(sub, proj, world(proj)))
 
 
 def placeholder_roles(f) -> dict:
@@ -197,6 +201,21 @@ def s8_reader_not_wider(chk: Check, proj: Project, m) -> None:
            "every string PLACEHOLDER_REGEX matches is a placeholder tag with only data-djc-* attributes" if ok else
            f"PLACEHOLDER_REGEX also matches {wit!r}, which the library never writes: an author's own tag that merely carries a placeholder name (plus other attributes) is deleted / replaced and suppresses the default insertion",
            detail={"reference": ref, "witness": wit})
+    # the end-tag scanner recognises end tags of the head / body ELEMENTS only
+    scan = m.func("_insert_js_css_to_default_locations")
+    rx = [c for c in calls(scan) if isinstance(c.func, ast.Attribute) and c.func.attr in ("finditer", "search", "match", "findall") and isinstance(c.func.value, ast.Name)]
+    names = sorted({c.func.value.id for c in rx})
+    if len(names) != 1:
+        chk.undecided("S8", "dependencies:end-tag-regex:not-wider-than-head-body-end-tags", m.loc(scan), f"end-tag scanner regex not identified ({names})")
+        return
+    pat2, fl2, node2 = compiled_regex(proj, "dependencies", names[0])
+    ref2 = r"(?i)</(?:head|body)(?:\s[^>]*)?>"
+    ok2, wit2 = included(Lang(pat2, fl2), Lang(ref2.encode() if isinstance(pat2, bytes) else ref2, 0))
+    chk.paths += 1
+    chk.ob("S8", "dependencies:end-tag-regex:not-wider-than-head-body-end-tags", m.loc(node2), ok2,
+           f"everything `{names[0]}` matches is an end tag of <head> or <body> (name, then whitespace or `>`)" if ok2 else
+           f"`{names[0]}` also matches {wit2!r}: the end tag of another (custom) element whose name merely starts with head / body is taken for the document's, and the CSS / JS is inserted there",
+           detail={"reference": ref2, "witness": wit2})
 
 
 def _insertions(f) -> List[Tuple[ast.Assign, str, str, str]]:
@@ -296,8 +315,8 @@ def s3(chk: Check, proj: Project, m) -> None:
         chk.undecided("S3", "dependencies:render_dependencies:roles", m.loc(f), f"working-bytes variable not identified ({R})")
         return
     rets = [s for s in stmts(f) if isinstance(s, ast.Return) and s.value is not None]
-    if len(rets) != 1:
-        chk.undecided("S3", "dependencies:render_dependencies:returns", m.loc(f), f"{len(rets)} return statements")
+    if not rets:
+        chk.undecided("S3", "dependencies:render_dependencies:returns", m.loc(f), "no return statement")
         return
     SAFE_T = ("SafeString", "SafeData", "SafeText")
 
@@ -360,25 +379,27 @@ def s3(chk: Check, proj: Project, m) -> None:
             return ty(e.body if c else e.orelse, case, env)
         return None
 
-    rv = rets[0].value
-    outcome: Dict[str, Optional[str]] = {}
-    for case in ("str", "safe", "bytes"):
-        env: Dict[str, Optional[str]] = {}
-        # the definitions of the variables the returned expression uses, in source order (straight-line tail of the function)
-        used = {x.id for x in ast.walk(rv) if isinstance(x, ast.Name)} - {W, p0}
-        for v in sorted(used):
-            for st, val in sorted(assignments(f, v), key=lambda t: t[0].lineno):
-                if val is not None and isinstance(st, ast.Assign) and st in f.body:
-                    env[v] = ty(val, case, env)
-        outcome[case] = ty(rv, case, env)
     names = {"str": "plain str", "safe": "SafeString", "bytes": "bytes"}
-    if any(v is None for v in outcome.values()):
-        chk.undecided("S3", "dependencies:render_dependencies:type-round-trip", m.loc(rets[0]), f"type of the returned expression not evaluable: {outcome}")
-    else:
-        bad = [c for c in outcome if outcome[c] != c]
-        chk.ob("S3", "dependencies:render_dependencies:type-round-trip", m.loc(rets[0]), not bad,
-               "plain str -> plain str, SafeString -> SafeString, bytes -> bytes" if not bad else
-               f"for a {names[bad[0]]} input the function returns a {names[outcome[bad[0]]]}: " + ("a plain (untrusted) string comes back marked safe and is no longer auto-escaped by {{ value }}" if bad[0] == "str" and outcome[bad[0]] == "safe" else "the input's type is not restored"))
+    for ri, ret in enumerate(rets):
+        rv = ret.value
+        outcome: Dict[str, Optional[str]] = {}
+        for case in ("str", "safe", "bytes"):
+            env: Dict[str, Optional[str]] = {}
+            # the definitions of the variables the returned expression uses, in source order (straight-line tail of the function)
+            used = {x.id for x in ast.walk(rv) if isinstance(x, ast.Name)} - {W, p0}
+            for v in sorted(used):
+                for st, val in sorted(assignments(f, v), key=lambda t: t[0].lineno):
+                    if val is not None and isinstance(st, ast.Assign) and st in f.body:
+                        env[v] = ty(val, case, env)
+            outcome[case] = ty(rv, case, env)
+        key = "dependencies:render_dependencies:type-round-trip" + (f"#{ri}" if len(rets) > 1 else "")
+        if any(v is None for v in outcome.values()):
+            chk.undecided("S3", key, m.loc(ret), f"type of the returned expression not evaluable: {outcome}")
+        else:
+            bad = [c for c in outcome if outcome[c] != c]
+            chk.ob("S3", key, m.loc(ret), not bad,
+                   "plain str -> plain str, SafeString -> SafeString, bytes -> bytes" if not bad else
+                   f"for a {names[bad[0]]} input the function returns a {names[outcome[bad[0]]]}: " + ("a plain (untrusted) string comes back marked safe and is no longer auto-escaped by {{ value }}" if bad[0] == "str" and outcome[bad[0]] == "safe" else "the input's type is not restored"))
     enc = [s for s, v in assignments(f, W) if v is not None and norm(v) == f"{p0}.encode()"]
     okk = bool(enc) and any(pol and t == f"isinstance({p0}, str)" for t, pol in cond_atoms(enc[0]))
     chk.ob("S3", "dependencies:render_dependencies:encode-iff-str", m.loc(enc[0]) if enc else m.loc(f), okk, "the input is encoded only when it is a str")
